@@ -33,7 +33,10 @@ def gen_class(rnd, i, exhaustive=None):
     km = rnd.randint(0, nm) if inherit else nm
     redeclared = None
     def field_line(n):
-        src = ord_src(ords[n]); return f"    {n}: int = field(default=0" + (f", metadata={src})" if src else ")")
+        src = ord_src(ords[n])
+        # the specification is given by field(metadata=...) or inside Annotated[...]
+        if src and rnd.random() < 0.3: return f"    {n}: Annotated[int, {src}] = 0"
+        return f"    {n}: int = field(default=0" + (f", metadata={src})" if src else ")")
     def method_lines(n, o=None):
         src = ord_src(o if o is not None else ords[n])
         return [f"    @serialized" + (f"(order={src})" if src else ""), f"    def {n}(self) -> int:", "        return 1"]
@@ -94,7 +97,7 @@ def model(reqs):
     return _model([dict(r, id=i, op="order") for i, r in enumerate(reqs)])
 
 def build(src_lines, tag):
-    src = ["from dataclasses import dataclass, field", "from apischema import order, serialized", ""] + src_lines
+    src = ["from dataclasses import dataclass, field", "from typing import Annotated", "from apischema import order, serialized", ""] + src_lines
     return build_module(src, tag)
 
 def enum_classes(start):
